@@ -6147,6 +6147,8 @@ class Path(Shape, MutableSequence):
     def vertical(self, *y_points, relative=False, **kwargs):
         for index in range(len(y_points)):
             start_pos = self.current_point
+            if start_pos is None:
+                raise ValueError("vertical line requires a current point")
             if relative:
                 self.append(
                     Line(
@@ -6168,6 +6170,8 @@ class Path(Shape, MutableSequence):
     def horizontal(self, *x_points, relative=False, **kwargs):
         for index in range(len(x_points)):
             start_pos = self.current_point
+            if start_pos is None:
+                raise ValueError("horizontal line requires a current point")
             if relative:
                 self.append(
                     Line(
@@ -6191,6 +6195,8 @@ class Path(Shape, MutableSequence):
         the second control point in the previous path."""
         for index in range(len(points)):
             start_pos = self.current_point
+            if start_pos is None:
+                raise ValueError("smooth curve requires a current point")
             control1 = self._smooth_point_of(QuadraticBezier)
             end_pos = points[index]
             if end_pos in ("z", "Z"):
@@ -6229,6 +6235,8 @@ class Path(Shape, MutableSequence):
         the second control point in the previous path."""
         for index in range(0, len(points), 2):
             start_pos = self.current_point
+            if start_pos is None:
+                raise ValueError("smooth curve requires a current point")
             control1 = self._smooth_point_of(CubicBezier)
             control2 = points[index]
 
@@ -6309,6 +6317,8 @@ class Path(Shape, MutableSequence):
     def arc(self, *arc_args, relative=False, **kwargs):
         for index in range(0, len(arc_args), 6):
             start_pos = self.current_point
+            if start_pos is None:
+                raise ValueError("arc requires a current point")
             rx = arc_args[index]
             ry = arc_args[index + 1]
             if rx < 0:
